@@ -1,4 +1,106 @@
-import StrumModel
+import StrumProofs.C02
+/-
+C11 — default and transparent variants capture and forward their inner value verbatim.
+The inner field's own `Display` / `AsRef<str>` / `From` impl is a *parameter* (`inner`): the theorems hold
+for every function, which is the strongest form of "verbatim".
+-/
 namespace Strum
-theorem c11_placeholder : True := trivial
+
+/-- **Capture.**  An input that is no candidate's spelling comes back inside the default variant,
+    holding exactly that input (`s.into()`). -/
+theorem default_captures (d : EnumDef) (hphf : d.usePhf = false) (p : FromStrImpl)
+    (hg : genFromStr d = .ok p) (s : Bytes) (hrej : ∀ v ∈ d.candidates, accepts d v s = false)
+    (v : Variant) (hd : d.defaults = [v]) :
+    parse d s = .ok (.ok v.ident [.captured s]) := by
+  rw [parse_other d hphf p hg s hrej]
+  rcases fall_spec d hphf p hg with ⟨h0, _⟩ | ⟨w, hw, _, hf⟩
+  · rw [h0] at hd; cases hd
+  · rw [hw] at hd; cases hd; rw [hf]; rfl
+
+/-- the Display arm of a default variant without `to_string`, and of a transparent variant, hands the
+    caller's formatter to the inner field -/
+theorem displayArm_forward (d : EnumDef) (v : Variant) (a : NameArm) (h : displayArm d v = .ok a)
+    (hf : v.transparent = true ∨ (v.isDefault = true ∧ v.toStr = none)) : a = .forward := by
+  unfold displayArm at h
+  by_cases ht : v.transparent = true
+  · simp only [ht, ↓reduceIte] at h
+    split at h
+    · cases h; rfl
+    · cases h
+  · rcases hf with hf | ⟨h1, h2⟩
+    · exact absurd hf ht
+    · simp only [ht, Bool.false_eq_true, ↓reduceIte, h1, h2, Option.isNone_none, Bool.and_self] at h
+      split at h
+      · cases h; rfl
+      · cases h
+
+theorem asRefArm_forward (d : EnumDef) (v : Variant) (a : NameArm) (h : asRefArm d v = .ok a)
+    (ht : v.transparent = true) : a = .forward := by
+  unfold asRefArm at h
+  simp only [ht, ↓reduceIte] at h
+  split at h
+  · cases h; rfl
+  · cases h
+
+/-- **Forwarding, Display.**  `format!(spec, v)` is `format!(spec, inner)` for every spec: the same
+    formatter (width, fill, alignment, precision, flags) reaches the inner value. -/
+theorem display_forwards (d : EnumDef) (hid : (d.variants.map (·.ident)).Nodup)
+    (v : Variant) (hv : v ∈ d.variants) (hen : v.disabled = false)
+    (hf : v.transparent = true ∨ (v.isDefault = true ∧ v.toStr = none))
+    (inner : FmtSpec → Bytes) (sp : FmtSpec) (o : ShowOut) (h : displayOut d v inner sp = .ok o) :
+    o = .text (inner sp) := by
+  unfold displayOut at h
+  cases hg : genNames d .display with
+  | error e => simp [hg, Except.map] at h
+  | ok arms =>
+    simp only [hg, Except.map, Except.ok.injEq] at h
+    obtain ⟨a, ha, hl⟩ := genNames_lookup d .display arms hg hid v hv hen
+    have := displayArm_forward d v a (by simpa [armOf] using ha) hf
+    subst this
+    rw [← h, hl]; rfl
+
+/-- **Forwarding, AsRefStr / AsStaticStr / IntoStaticStr / into_str.**  A transparent variant returns
+    exactly what its inner field returns. -/
+theorem str_forwards (d : EnumDef) (hid : (d.variants.map (·.ident)).Nodup)
+    (v : Variant) (hv : v ∈ d.variants) (hen : v.disabled = false) (ht : v.transparent = true)
+    (dv : NameDerive) (hdv : dv ≠ .display ∧ dv ≠ .toStringDeprecated)
+    (inner : Bytes) (o : ShowOut) (h : strOut d dv v inner = .ok o) : o = .text inner := by
+  unfold strOut at h
+  cases hg : genNames d dv with
+  | error e => simp [hg, Except.map] at h
+  | ok arms =>
+    simp only [hg, Except.map, Except.ok.injEq] at h
+    obtain ⟨a, ha, hl⟩ := genNames_lookup d dv arms hg hid v hv hen
+    have ha' : asRefArm d v = .ok a := by
+      cases dv <;> simp_all [armOf]
+    have := asRefArm_forward d v a ha' ht
+    subst this
+    rw [← h, hl]; rfl
+
+theorem pad_default (s : Bytes) : pad {} s = s := rfl
+
+/-- **`E::from_str(s)?.to_string() == s`** for every `s` that is no other variant's spelling, when the
+    default variant's inner type prints a string as itself (`String`, `Box<str>`: `inner spec = pad spec s`). -/
+theorem default_roundtrip (d : EnumDef) (hphf : d.usePhf = false) (p : FromStrImpl)
+    (hg : genFromStr d = .ok p) (hid : (d.variants.map (·.ident)).Nodup)
+    (s : Bytes) (hrej : ∀ v ∈ d.candidates, accepts d v s = false)
+    (v : Variant) (hd : d.defaults = [v]) (hts : v.toStr = none)
+    (o : ShowOut) (h : displayOut d v (fun sp => pad sp s) {} = .ok o) :
+    parse d s = .ok (.ok v.ident [.captured s]) ∧ o = .text s := by
+  refine ⟨default_captures d hphf p hg s hrej v hd, ?_⟩
+  have hv : v ∈ d.defaults := by rw [hd]; simp
+  unfold EnumDef.defaults at hv
+  simp only [List.mem_filter, Bool.and_eq_true, Bool.not_eq_eq_eq_not, Bool.not_true] at hv
+  have := display_forwards d hid v hv.1 hv.2.1 (Or.inr ⟨hv.2.2, hts⟩) _ {} o h
+  rw [this]; rfl
+
+/-! non-vacuity -/
+def exampleFwd : EnumDef :=
+  { variants := [{ ident := [65] }, { ident := [79], isDefault := true, fields := .tuple 1 },
+                 { ident := [84], transparent := true, fields := .named [([105], none)] }] }
+example : displayOut exampleFwd { ident := [79], isDefault := true, fields := .tuple 1 } (fun sp => pad sp [120, 121]) {}
+    = .ok (.text [120, 121]) := by rfl
+example : strOut exampleFwd .asRef { ident := [84], transparent := true, fields := .named [([105], none)] } [122]
+    = .ok (.text [122]) := by rfl
+
 end Strum
